@@ -1119,10 +1119,14 @@ class Converter:
         def ret(exp, i, suffix):
             preferred_name = f"return_val{suffix}"
             return_var = self._translate_expr(exp, preferred_name)
-            if return_var.is_graph_input():
-                # In ONNX, a graph-input cannot be an output of the graph.
-                # We need to insert a copy. (The value itself is tested: the Python name
-                # of the input may have been rebound to another value since.)
+            if (
+                return_var.is_graph_input()
+                or return_var.name not in self._current_fn.assigned_names
+            ):
+                # In ONNX, a graph-input cannot be an output of the graph, and an output of a
+                # (sub)graph must be produced inside it (a nested function may return a value
+                # of the enclosing function). We need to insert a copy. (The value itself is
+                # tested: the Python name of the input may have been rebound to another value since.)
                 return_var = self._emit_copy(return_var, preferred_name)
             for prev_output in self._current_fn.outputs:
                 if prev_output.name == return_var.name:
